@@ -114,3 +114,13 @@ Definition mx_oracle_output (output text perf : mx_bytes) (pd : list mx_bytes) :
   else if negb (mx_beq p perf) then Some 41%Z
   else if negb (mx_list_beq pd (mx_split_perfdata p)) then Some 42%Z
   else None.
+
+(* timeout scenarios: [evs] is the course of DoEvents calls the scenario forces; observed are state, exit status
+   and whether the stored output carries the marker.  Codes: 50 not UNKNOWN/128, 51 marker missing or spurious *)
+Definition mx_oracle_timeout (evs : list mx_pev) (state exit_status : Z) (marker : bool) : option Z :=
+  match mx_timeout_observe evs with
+  | Some (s, e, m) =>
+      if negb (Z.eqb s state && Z.eqb e exit_status) then Some 50%Z
+      else if negb (Bool.eqb m marker) then Some 51%Z else None
+  | None => Some 52%Z
+  end.
